@@ -589,6 +589,14 @@ fn run_op(st: &mut St, op: &Value) -> Value {
             st.db = Some(liwe::database::Database::new(state, false, MarkdownOptions::default()));
             json!({})
         }
+        "global_search" => {
+            // result of the search and, for judging it, the whole ranked list it was cut from
+            let db = st.db.as_ref().unwrap();
+            let q = op["query"].as_str().unwrap();
+            let f = |p: &liwe::graph::SearchPath| json!({"key": p.key.to_string(), "text": p.search_text, "rank": p.node_rank});
+            json!({"result": db.global_search(q).iter().map(f).collect::<Vec<_>>(),
+                   "all": db.graph().search_paths().iter().map(f).collect::<Vec<_>>()})
+        }
         "arena" => arena_json(gr(st)),
         "server" => run_server(op),
         "router_session" => run_router(op),
